@@ -90,26 +90,45 @@ inductive FileErr where
   | accounting (detail : String)  -- some page reached twice or not at all
   deriving Repr, Inhabited
 
-partial def viewBucket (pg : PageStore) (fuel : Nat) (root nextInt : Nat) : Except FileErr BucketView :=
-  match unfoldT pg fuel root with
-  | none => .error (.notATree root)
-  | some t =>
-    if !wfb (K := Bytes) none none t then .error (.notWF root) else
-    let rec go : List (Bytes × Nat × Nat) → Except FileErr (List (Bytes × BucketView))
-      | [] => .ok []
-      | (k, r, n) :: rest =>
-        match viewBucket pg (fuel - 1) r n, go rest with
-        | .ok v, .ok vs => .ok ((k, v) :: vs)
-        | .error e, _ => .error e
-        | _, .error e => .error e
-    if fuel = 0 then .error (.notATree root) else
-    match go (subBuckets t.flatten) with
-    | .ok subs => .ok { tree := t, nextInt := nextInt, subs := subs }
-    | .error e => .error e
+/-- the nested buckets of a bucket, viewed one by one with `f` (the view of one bucket from its root page
+and counter); the first error in entry order wins -/
+def viewSubs (f : Nat → Nat → Except FileErr BucketView) :
+    List (Bytes × Nat × Nat) → Except FileErr (List (Bytes × BucketView))
+  | [] => .ok []
+  | (k, r, n) :: rest =>
+    match f r n, viewSubs f rest with
+    | .ok v, .ok vs => .ok ((k, v) :: vs)
+    | .error e, _ => .error e
+    | _, .error e => .error e
 
-partial def BucketView.runs (pg : PageStore) (b : BucketView) : List (Nat × Nat) :=
+def viewBucket (pg : PageStore) (fuel : Nat) (root nextInt : Nat) : Except FileErr BucketView :=
+  match fuel with
+  | 0 => .error (.notATree root)
+  | fuel' + 1 =>
+    match unfoldT pg (fuel' + 1) root with
+    | none => .error (.notATree root)
+    | some t =>
+      if !wfb (K := Bytes) none none t then .error (.notWF root) else
+      match viewSubs (viewBucket pg fuel') (subBuckets t.flatten) with
+      | .ok subs => .ok { tree := t, nextInt := nextInt, subs := subs }
+      | .error e => .error e
+
+def BucketView.runs (pg : PageStore) (b : BucketView) : List (Nat × Nat) :=
   (b.tree.pids.map (fun p => (p, match pg p with | some q => q.overflow + 1 | none => 1)))
     ++ b.subs.flatMap (fun s => s.2.runs pg)
+termination_by sizeOf b
+decreasing_by
+  rename_i hs
+  have h1 : sizeOf s < sizeOf b.subs := List.sizeOf_lt_of_mem hs
+  have h2 : sizeOf s.snd < sizeOf s := by
+    obtain ⟨k, v⟩ := s
+    simp only [Prod.mk.sizeOf_spec]
+    omega
+  have h3 : sizeOf b.subs < sizeOf b := by
+    obtain ⟨t, n, ss⟩ := b
+    simp only [BucketView.mk.sizeOf_spec]
+    omega
+  omega
 
 def expandRuns (rs : List (Nat × Nat)) : List Nat :=
   rs.flatMap (fun r => (List.range r.2).map (· + r.1))
